@@ -180,15 +180,25 @@ func (root *Root) resolve(
 		// will be nil so check for a @go directive then a type argument that
 		// matches the object type. If there is a match then set the meta.
 		objType := reflect.TypeOf(obj)
+		// A member whose Go type is not known yet can not be the type of the
+		// object if a later member is bound to the Go type of the object.
+		var unknown error
+		found := false
 		for _, m := range tt.Members {
 			if ot, _ := m.(*Object); ot != nil { // already checked in validation
 				if meta, err := ot.metaCheck(objType); err != nil {
-					return nil, []error{err}
+					if unknown == nil {
+						unknown = err
+					}
 				} else if objType == meta {
 					result, ea = root.resolveFieldSels(obj, vars, field, m, depth-1)
+					found = true
 					break
 				}
 			}
+		}
+		if !found && unknown != nil {
+			return nil, []error{unknown}
 		}
 	default:
 		// Validation makes sure all output types are valid so no need to
